@@ -688,6 +688,14 @@ def load_unit(name, extra_flags=(), src=None, root=None, tag=""):
             d["functions"] = [f for f in d["functions"] if f["did"] not in drop]
     else:
         drop, pristine = set(), {}
+    callee_by_did = {}
+    for fd_ in d["functions"]:
+        for n_ in fd_.get("nodes") or ():
+            c_ = n_.get("callee")
+            if c_ and c_.get("did") is not None and c_["did"] not in callee_by_did:
+                callee_by_did[c_["did"]] = c_
+    for fd_ in d["functions"]:
+        resolve_member_pointers(fd_, callee_by_did)
     u = Unit(name, d, src)
     # new helpers that were spliced into all their callers: not analysed as entry points, but available to rules
     # that read the statement tree (mirror-arm comparison) so that a case split moved into a helper is still seen
@@ -695,6 +703,55 @@ def load_unit(name, extra_flags=(), src=None, root=None, tag=""):
     u.renamed = renamed
     _unit_cache[key] = u
     return u
+
+
+def resolve_member_pointers(fd, callee_by_did=None):
+    """`x->*pm` / `x.*pm` whose pointer-to-member is, after virtual inlining, a parameter bound to the constant
+    `&Class::field` (or that constant itself) is the member access `x->field` / `x.field`: the node is rewritten in place
+    so that every rule reads a helper parameterised by the field (e.g. one rotate() for both directions) like the code
+    with the field spelled out."""
+    nodes = fd.get("nodes")
+    if not nodes:
+        return
+    bind = {n["d"]: n["init"] for n in nodes if n.get("k") == "ParamBind" and "init" in n}
+
+    def strip(i, hops=0):
+        while hops < 12:
+            x = nodes[i]
+            if x.get("k") in ("ImplicitCastExpr", "ParenExpr", "CStyleCastExpr", "CXXStaticCastExpr") and x.get("c"):
+                i, hops = x["c"][0], hops + 1
+                continue
+            if x.get("k") == "DeclRefExpr" and x.get("d") in bind:
+                i, hops = bind[x["d"]], hops + 1
+                continue
+            return i
+        return i
+    for n in nodes:
+        if n.get("k") == "BinaryOperator" and n.get("op") in ("->*", ".*") and len(n.get("c", [])) == 2:
+            r = nodes[strip(n["c"][1])]
+            if r.get("k") == "UnaryOperator" and r.get("op") == "&" and r.get("c"):
+                fld = nodes[r["c"][0]]
+                if fld.get("k") == "DeclRefExpr" and fld.get("dk") == "Field":
+                    arrow = n["op"] == "->*"
+                    n["k"] = "MemberExpr"
+                    n["c"] = [n["c"][0]]
+                    n["m"], n["md"], n["mk"], n["arrow"] = fld.get("n"), fld.get("d"), "Field", arrow
+                    n["via_member_pointer"] = True
+                    n.pop("op", None)
+        # an indirect call through a parameter that is bound to the constant `&function` (a callable handed to a helper,
+        # e.g. descend(root, &get_left)) is a direct call of that function
+        if n.get("k") == "CallExpr" and not n.get("callee") and "fn" in n:
+            r = nodes[strip(n["fn"])]
+            if r.get("k") == "UnaryOperator" and r.get("op") == "&" and r.get("c"):
+                r = nodes[strip(r["c"][0])]
+            if r.get("k") == "DeclRefExpr" and r.get("dk") in ("CXXMethod", "Function") and r.get("d") is not None:
+                tmpl = (callee_by_did or {}).get(r["d"])
+                if tmpl is not None:
+                    n["callee"] = dict(tmpl)
+                else:
+                    n["callee"] = {"qn": r.get("qn", r.get("n")), "uq": r.get("qn", r.get("n")), "n": r.get("n"), "did": r["d"],
+                                   "kind": "method" if r.get("dk") == "CXXMethod" else "func", "static": True}
+                n["via_function_pointer"] = True
 
 
 def unit_errors(u):
